@@ -91,8 +91,23 @@ def probe_doc(n):
     return ("probe/%d" % n, "import qmluic.QtWidgets\nQWidget { " + "; ".join(f"{x}: {i}" for i, x in enumerate(names)) + " }\n")
 
 
+def catalogue_docs():
+    """Bound-1 documents of the C04 catalogue on two subjects: every binding kind (grouped values with
+    constant, mixed and dynamic members, attached and pseudo-properties, handlers) and every fault kind,
+    i.e. every map-valued intermediate the translator iterates over."""
+    from checks import c04
+    import qml
+    wanted = [c04.SUBJECTS.index(("QLabel", "layout-child")), c04.SUBJECTS.index(("QTableView", "plain")),
+              c04.SUBJECTS.index(("QGridLayout", "layout"))]
+    for cid, (si, gi, fi) in enumerate(c04.combos("quick")):
+        if si in wanted and len(gi) + len(fi) == 1:
+            _sj, kinds, root = c04.instantiate(si, gi, fi)
+            yield (f"cat/{c04.SUBJECTS[si][0]}/{kinds[0].name}", qml.render(root))
+
+
 def docs_for(tier):
     docs = list(RICH)
+    docs += list(catalogue_docs())
     docs += [(n, t) for n, t in corpus.all_seeds("quick") if n.startswith("g/")]
     ex = corpus.example_seeds()
     docs += [(n, t) for n, t in ex if "customwidget" not in n][: (4 if tier == "quick" else 20)]
@@ -188,6 +203,35 @@ def cli_runs(tier, tally, docs, seeds, accepted_names):
                     tally.violation("cli:outputs-differ-between-runs",
                                     {"kind": "cli", "seed": s, "exit": [p.returncode, first[0]],
                                      "differing": [x[0] for x in diff][:6]})
+        # the same sources translated into a directory that already holds the outputs of an earlier
+        # version of each document (one character of a constant changed: same length) must give the same bytes
+        import re
+        vdir = os.path.join(d, "variant")
+        os.makedirs(vdir)
+        changed = 0
+        for fn, (n, t) in zip(names, acc):
+            v = re.sub(r'"([A-Za-z])', lambda m: '"' + ("Z" if m.group(1) != "Z" else "Y"), t, count=1)
+            if v == t:
+                v = re.sub(r"(: )(\d)\b", lambda m: m.group(1) + str((int(m.group(2)) + 1) % 10), t, count=1)
+            changed += v != t
+            with open(os.path.join(vdir, fn), "w") as f:
+                f.write(v)
+        out = os.path.join(d, "out-preexisting")
+        env = dict(os.environ, NO_COLOR="1")
+        p1 = subprocess.run([vc.QMLUIC_BIN, "generate-ui", "--foreign-types", vc.METATYPES, "--foreign-types", vc.VTYPES,
+                             "-O", os.path.join("..", "out-preexisting")] + names, cwd=vdir, env=env,
+                            stdout=subprocess.PIPE, stderr=subprocess.PIPE)
+        if p1.returncode == 0 and first is not None:
+            p2 = subprocess.run([vc.QMLUIC_BIN, "generate-ui", "--foreign-types", vc.METATYPES, "--foreign-types", vc.VTYPES,
+                                 "-O", out] + names, cwd=d, env=env, stdout=subprocess.PIPE, stderr=subprocess.PIPE)
+            tally.inc("cli_runs", 2)
+            tally.inc("cli_preexisting_variants", changed)
+            files = {fn: vc.sha(open(os.path.join(out, fn), "rb").read()) for fn in sorted(os.listdir(out))}
+            obs = (p2.returncode, tuple(sorted(files.items())))
+            if obs != first:
+                diff = sorted(set(dict(obs[1]).items()) ^ set(dict(first[1]).items()))
+                tally.violation("cli:outputs-depend-on-what-the-directory-held-before",
+                                {"kind": "cli", "exit": [p2.returncode, first[0]], "differing": [x[0] for x in diff][:6]})
 
 
 WARN_DOCS = [
